@@ -158,7 +158,8 @@ fn me_layout(bytes: &[u8], leaf: &mut String, fields: &mut Vec<FieldDef>, may_re
                     fields.push(fk("me.vel.airspeed", M + 26, 10, 7, Kind::Minus1));
                 }
                 _ => {
-                    fields.push(f("me.vel.reserved22", M + 14, 22, 7));
+                    // reserved subtypes: the 22 bits have no standard meaning, observed but not judged
+                    fields.push(f("me.vel.reserved22", M + 14, 22, 0));
                 }
             }
             fields.push(f("me.vel.vrate_src", M + 36, 1, 7));
